@@ -82,7 +82,8 @@ def composeAll (pieces : List RelList) : RelList :=
 /-- `Analysis.unary_asgn` for `x = op e`.  The code builds a fresh node and calls
     `compute_relation` on it; the rewritten nodes are shallow, so the model computes their
     relations directly.  Returns `none` for the `_unsupported` path. -/
-def unaryAsgn (index : Nat) (x : String) (op : String) (e : Node) : M (Option (Nat × RelList)) := do
+def unaryAsgn (index : Nat) (x : String) (op : String) (e0 : Node) : M (Option (Nat × RelList)) := do
+  let e := e0.rmCast    -- `right = Analysis.rm_cast(node.rvalue.expr)`
   let step1 : Option (Nat × RelList) := match e with
     | .const .. => some (index, constAsgn x)
     | _ => none
@@ -137,18 +138,14 @@ def compute (index : Nat) (dg : DG.Graph) : Node → M Out
   | n@(.assign _ (.id x) r) => do
     match r.rmCast1 with
     | .binop op l rr =>
-      -- `binary_op` reads `node.rvalue.left`: fails when the right-hand side is a Cast
-      if r.isCast then throw "AttributeError"
       let (i, rl) ← binaryOp index x op l rr
       pure ⟨i, rl, false, dg, []⟩
     | .const .. => pure ⟨index, constAsgn x, false, dg, []⟩
     | .unop op e =>
-      if r.isCast then throw "AttributeError"   -- `node.rvalue.op` on a Cast
       match ← unaryAsgn index x op e with
       | some (i, rl) => pure ⟨i, rl, false, dg, []⟩
       | none => pure (skip index dg [n.cls])
     | .id y =>
-      if r.isCast then throw "AttributeError"   -- `node.rvalue.name` on a Cast
       pure ⟨index, ← idAsgn x y, false, dg, []⟩
     | _ => pure (skip index dg [n.cls])
   | .unop op e =>
